@@ -26,7 +26,7 @@ class Config(object):
 
     def __init__(self, seed=0, origin=(0.0, 0.0, 0.0), dx0=(0.125, 0.25, 0.5),
                  payload="tame", trailing_blank=True, long_ratio=False,
-                 file_gaps=False, time=None, numfmt="repr", final_newline=True):
+                 file_gaps=False, time=None, numfmt="repr", final_newline=True, ratios=None):
         self.seed = seed
         self.origin = tuple(origin)
         self.dx0 = tuple(dx0)
@@ -42,6 +42,9 @@ class Config(object):
         # FALSE: the level headers and the global header end with their last character, not with a line end (legal: nothing
         # follows the last row)
         self.final_newline = final_newline
+        # refinement ratio between consecutive levels (spec/Refine.tla): None = 2 everywhere; otherwise a tuple over {2, 4}, one
+        # entry per level jump.  A level's cells are rfac(cfg, lv) = ratios[0] * .. * ratios[lv-1] times finer than level 0
+        self.ratios = tuple(ratios) if ratios else None
 
     def fmt(self, x):
         return repr(float(x)) if self.numfmt == "repr" else "%.6g" % float(x)
@@ -178,8 +181,36 @@ def file_name(f, cfg):
     return "Cell_D_%05d" % n
 
 
+def rfac(ratios, lv):
+    """Cells of level lv per level-0 cell along one axis; `ratios` is a Config, an abstract plotfile, a tuple or None."""
+    if isinstance(ratios, Config):
+        ratios = ratios.ratios
+    elif isinstance(ratios, dict):
+        ratios = ratios.get("ratios")
+    if not ratios:
+        return 2 ** lv
+    p = 1
+    for k in range(lv):
+        p *= ratios[k]
+    return p
+
+
 def level_dx(cfg, ndims, lv):
-    return [cfg.q(cfg.dx0[d] / (2 ** lv)) for d in range(ndims)]
+    return [cfg.q(cfg.dx0[d] / rfac(cfg, lv)) for d in range(ndims)]
+
+
+def apply_ratios(AP, cfg, ratios):
+    """Turn a ratio-2 abstract plotfile into one with the given ratios: the boxes of level lv keep their place in space and are
+    rfac / 2**lv times finer along every axis.  Records the ratios in AP and cfg (write_plotfile insists that they agree)."""
+    ratios = tuple(ratios)
+    for lv, L in enumerate(AP["levels"]):
+        k = rfac(ratios, lv) // 2 ** lv
+        for box in L["boxes"]:
+            box["lo"] = [v * k for v in box["lo"]]
+            box["hi"] = [(v + 1) * k - 1 for v in box["hi"]]
+    AP["ratios"] = list(ratios)
+    cfg.ratios = ratios
+    return AP
 
 
 def geo(AP, cfg):
@@ -191,7 +222,7 @@ def geo(AP, cfg):
 
 def ishift(AP, lv):
     """Index of the first cell of the level-lv domain along each axis (0 unless shift_indices was applied)."""
-    return [s * 2 ** lv for s in AP.get("ishift", [0] * AP["ndims"])]
+    return [s * rfac(AP, lv) for s in AP.get("ishift", [0] * AP["ndims"])]
 
 
 def shift_indices(AP, shift):
@@ -202,7 +233,7 @@ def shift_indices(AP, shift):
     for lv, L in enumerate(AP["levels"]):
         for box in L["boxes"]:
             for d in range(nd):
-                k = (shift[d] - old[d]) * 2 ** lv
+                k = (shift[d] - old[d]) * rfac(AP, lv)
                 box["lo"][d] += k
                 box["hi"][d] += k
     AP["ishift"] = list(shift[:nd])
@@ -252,6 +283,8 @@ def write_plotfile(path, AP, cfg, reg=None, values=None, mm_override=None):
     nd = AP["ndims"]
     nf = len(AP["fields"])
     nlev = len(AP["levels"])
+    if tuple(AP.get("ratios") or ()) != tuple(cfg.ratios or ()):
+        raise RuntimeError("MACHINERY: refinement ratios of the abstract plotfile %r and of the configuration %r differ" % (AP.get("ratios"), cfg.ratios))
     os.makedirs(path, exist_ok=False)
     time = AP.get("time", cfg.time if cfg.time is not None else 0.0)
     lo, hi = geo(AP, cfg)
@@ -268,11 +301,13 @@ def write_plotfile(path, AP, cfg, reg=None, values=None, mm_override=None):
         h.write(" ".join(fmt(v) for v in lo) + tb + "\n")
         h.write(" ".join(fmt(v) for v in hi) + tb + "\n")
         nrat = nlev - 1 + (1 if cfg.long_ratio else 0)
-        h.write(" ".join("2" for _ in range(nrat)) + tb + "\n")
+        rat = list(cfg.ratios[:nlev - 1]) if cfg.ratios else [2] * (nlev - 1)
+        rat += [2] * (nrat - len(rat))
+        h.write(" ".join(str(r) for r in rat) + tb + "\n")
         doms = []
         for lv in range(nlev):
             sh = ishift(AP, lv)
-            sz = [AP["dom"][d] * 2 ** lv - 1 + sh[d] for d in range(nd)]
+            sz = [AP["dom"][d] * rfac(cfg, lv) - 1 + sh[d] for d in range(nd)]
             z = ",".join("0" for _ in range(nd))
             doms.append("((%s) (%s) (%s))" % (",".join(str(s) for s in sh), ",".join(str(s) for s in sz), z))
         h.write(" ".join(doms) + tb + "\n")
